@@ -12,7 +12,7 @@ ASSUME_COMMON = ["lowercase/uppercase meaning = this toolchain's str::to_lowerca
 
 def ctor_decls(tier, seed):
     return (corpus_ctor.build(tier, seed) + corpus_extra.build_perm(tier, seed) + corpus_extra.build_message(tier, seed)
-            + corpus_extra.build_finite(tier, seed) + corpus_serde.build(tier, seed) + corpus_arb.build(tier, seed)
+            + corpus_extra.build_finite(tier, seed) + corpus_extra.build_defaults(tier, seed) + corpus_serde.build(tier, seed) + corpus_arb.build(tier, seed)
             + corpus_random.build(tier, seed))
 
 
